@@ -228,6 +228,28 @@ CLAIMED = {
 }
 
 NOT_APPLICABLE = {
+    "C02": "Solver-based checking not applicable: that close+reopen reproduces the state is decided by "
+           "libhdf5's persistence (C code behind FFI, cannot be executed symbolically here; an in-memory "
+           "stand-in would assume the property). nixio's share - no write-back cache, every setter goes "
+           "straight to the backend - has no symbolic variable to quantify over; it is exercised as a "
+           "by-product of C12/C19/C05 but that is not this property.",
+    "C04": "Solver-based checking not applicable: what a delete removes is decided by H5Ovisit traversal "
+           "under concurrent unlinking and HDF5 hard-link reference counting inside libhdf5; fakeh5's "
+           "visititems is pinned to h5py only on a small script, a check built on it would largely "
+           "assume the property. (Deletion histories inside one container are covered by C03.)",
+    "C16": "Solver-based checking not applicable: every data-frame operation is NumPy structured-array / "
+           "HDF5 compound-type manipulation behind C boundaries (CrossHair concretises there); in "
+           "addition the data-frame code does not run with the installed NumPy 2.x (all data-frame "
+           "tests are in the baseline's always-fail list).",
+    "C17": "Solver-based checking not applicable: flush/close durability under SIGKILL is libhdf5 cache "
+           "flushing plus the kernel page cache; the repository's share is two delegating lines with "
+           "no input to make symbolic, and crash points cannot be encoded with the tools present.",
+    "C18": "Solver-based checking not applicable: cmd/upgrade.py manipulates h5py compound datasets and "
+           "moves objects directly; interruption points are HDF5 file states. Only the 'version bump "
+           "is scheduled last' ordering is within reach, far too little to claim the property.",
+    "C20": "Solver-based checking not applicable: copy completeness/independence is decided by H5Ocopy "
+           "inside libhdf5; moreover H5Group.copy uses np.string_, which no longer exists in the "
+           "installed NumPy 2.x (all copy tests are in the baseline's always-fail list).",
 }
 
 PENDING_REASON = "check not built yet in this round (planned, see DESIGN.md section 3)"
